@@ -12,7 +12,7 @@ int main() {
   printf("{");
 #define V(sym, name) { printf("%s\"%s\":[", first ? "" : ",", name); first = false; \
     for (int i = 0; i < VALNS::sym.numItems; i++) { const testing::ValidationItem& it = VALNS::sym.items[i]; \
-      printf("%s[%ld,%d,%d,%d,%d,%d,%d,%d,%d,%s,\"%c\"]", i ? "," : "", (long) it.epochSeconds, it.timeOffsetMinutes, it.deltaOffsetMinutes, it.year, it.month, it.day, it.hour, it.minute, it.second, js(it.abbrev).c_str(), it.type); } \
+      printf("%s[%ld,%d,%d,%d,%d,%d,%d,%d,%d,%s,\"%c\"]", i ? "," : "", (long) it.epochSeconds, it.timeOffsetMinutes, it.deltaOffsetMinutes, it.year, it.month, it.day, it.hour, it.minute, it.second, js(it.abbrev).c_str(), (it.type >= 32 && it.type < 127 && it.type != '"' && it.type != '\\') ? it.type : '?'); } \
     printf("]"); }
 #include "valread_list.inc"
   printf("}\n");
